@@ -6,6 +6,7 @@ CONSTANTS
   MaxExt = 2
   MaxToggle = 2
   IllMaxStep = 2
+  AvoidErrors = FALSE
   Depth = 7
 INIT Init
 NEXT Next
